@@ -492,3 +492,7 @@ pub struct Measurement {
     /// The uncertainty of the timestamps.
     pub uncertainty: Duration,
 }
+
+#[cfg(all(test, pendulum_project_ntpd_rs_verif))]
+#[path = "/verif/harness/statime-algo/hook_lib.rs"]
+mod verif_hook;
